@@ -618,12 +618,12 @@ impl SortableStrVec {
             return;
         }
 
-        // Use insertion sort for small subarrays
-        if indices.len() < 32 {
+        // Use insertion sort for small subarrays and for very deep recursion
+        if indices.len() < 32 || depth >= Self::MAX_RADIX_DEPTH {
             indices.sort_unstable_by(|&a, &b| {
                 // SAFETY: See function doc - indices are always 0..self.len()
-                let str_a = self.get(a).unwrap();
-                let str_b = self.get(b).unwrap();
+                let str_a = self.get(a).unwrap().as_bytes();
+                let str_b = self.get(b).unwrap().as_bytes();
                 str_a[depth.min(str_a.len())..].cmp(&str_b[depth.min(str_b.len())..])
             });
             return;
@@ -823,6 +823,12 @@ impl SortableStrVec {
         Ok(())
     }
 
+    /// Maximum recursion depth (= length of the common prefix already consumed) of the MSD
+    /// radix sort. Each level keeps a 257-entry count table on the stack, so buckets that
+    /// still share a prefix this long (e.g. many copies of one long string) are finished
+    /// with a comparison sort instead of recursing once per remaining byte.
+    const MAX_RADIX_DEPTH: usize = 64;
+
     /// Static helper for MSD radix sort to avoid borrow conflicts
     fn radix_sort_msd_helper(
         arena: &[u8],
@@ -836,7 +842,8 @@ impl SortableStrVec {
         }
 
         // Use insertion sort for small subarrays (faster than radix for small data)
-        if indices.len() < 32 {
+        // and for very deep recursion (bounded stack usage)
+        if indices.len() < 32 || depth >= Self::MAX_RADIX_DEPTH {
             indices.sort_unstable_by(|&a, &b| {
                 let entry_a = entries[a];
                 let entry_b = entries[b];
